@@ -100,4 +100,4 @@ def main(argv):
         return evidence.build(prop, eng, tier, a.seed, results, wall,
                               truncated, nviol, known_hit, a.workers)
     return runner.check_main(eng, prop, tier, a.seed, cfg, nruns, a.workers,
-                             budget, ev)
+                             budget, ev, first_index=a.first)
